@@ -20,7 +20,7 @@ NPROC = int(os.environ.get("VERIF_NPROC", "16"))
 
 
 class Case:
-    def __init__(self, harness, label, shape, target=(), group=None, timeout_ms=None, expect=None, no_loop_specs=False):
+    def __init__(self, harness, label, shape, target=(), group=None, timeout_ms=None, expect=None, no_loop_specs=False, overrides=None):
         self.harness = harness
         self.label = label
         self.shape = shape
@@ -28,6 +28,7 @@ class Case:
         self.group = group or harness.split(".")[-1]
         self.timeout_ms = timeout_ms
         self.no_loop_specs = no_loop_specs
+        self.overrides = dict(overrides or {})  # assumed contracts on dependencies for this case only
         self.expect = expect  # None (must be proved) | "refuted" (sentinel that must fail)
 
 
@@ -78,17 +79,23 @@ def _run_case(arg):
         case = cases[idx]
         t0 = time.time()
         saved_specs = E.I.loop_specs
+        saved_ovr = dict(E.I.overrides)
         if case.no_loop_specs:
             E.I.loop_specs = {}
+        for k, v in case.overrides.items():
+            if k.endswith(".open"):
+                continue  # open() goes through the engine's open hook
+            E.I.overrides[k] = v
         try:
             res = run_harness(E, case.harness, case.label, case.shape, verify_target=case.target)
         finally:
             E.I.loop_specs = saved_specs
+            E.I.overrides = saved_ovr
         out = {
             "harness": case.harness, "case": case.label, "group": case.group, "unsupported": res.unsupported, "paths": res.paths,
             "seconds": 0.0, "inlined": sorted(res.inlined), "used_contracts": sorted(res.used_contracts),
             "used_overrides": sorted(res.used_overrides), "assumed": list(res.assumed), "obligations": [], "expect": case.expect,
-            "target": case.target, "cover": res.cover,
+            "target": case.target, "cover": res.cover, "overrides": case.overrides,
         }
         for ob in res.obligations:
             solve.discharge(ob, case.timeout_ms or timeout_ms)
@@ -109,7 +116,7 @@ def _run_case(arg):
     except Exception as e:  # noqa: BLE001
         return {"harness": "?", "case": str(idx), "group": "?", "crash": f"{type(e).__name__}: {e}\n{traceback.format_exc()}", "obligations": [],
                 "unsupported": None, "paths": 0, "seconds": 0, "inlined": [], "used_contracts": [], "used_overrides": [], "assumed": [],
-                "expect": None, "target": [], "cover": None}
+                "expect": None, "target": [], "cover": None, "overrides": {}}
 
 
 def run_cases(modname, ncases, mutant_key=None, timeout_ms=10000, want_replay=True, nproc=NPROC, only=None):
